@@ -17,6 +17,7 @@ EXPLANATION = ("Named arguments. R1 (exhaustive over every generator macro defin
                "list order.")
 NOT_DECIDED = ("The brace scanner and the split-after-format for every template and value (values containing the separator bytes are "
                "a known dynamic risk), JSON escaping (excluded by the property), equality of text with positional formatting.")
+EXHAUSTIVE = "every QUILL_GENERATE_[NAMED_]FORMAT_STRING_<k> macro that is defined (k = 0..26)"
 ASSUMPTIONS = []
 BW = "quill::detail::BackendWorker::"
 
